@@ -268,12 +268,12 @@ theorem evalFor_succ (n : Nat) (ih : SimAll n) (β : Addr → List Stmt) (σ : S
     unfold evalFor
     ev_auto ih
 
-theorem bindProp_succ (n : Nat) (ih : SimAll n) (β : Addr → List Stmt) (σ : State) (a : Addr) (name : List Char) (loc : Loc)
+theorem bindProp_succ (n : Nat) (_ih : SimAll n) (β : Addr → List Stmt) (σ : State) (a : Addr) (name : List Char) (loc : Loc)
     (rhs : SVal) (op : Option (BinaryOp × Loc)) (names : List (List Char)) (vi : Bool) (hg : Good β σ) :
     Ev (bindProp (n + 1) σ a name loc rhs op names vi) (fun m => bindProp m (wb β σ) a name loc rhs op names vi) := by
   apply Ev.shift
   unfold bindProp
-  ev_auto ih
+  ev_auto _ih
 
 theorem bindRangeIndex_succ (n : Nat) (ih : SimAll n) (β : Addr → List Stmt) (σ : State) (sc : List Addr) (a : Addr)
     (start stop : Option Expr) (loc : Loc) (rhsItems : List SVal) (names : List (List Char)) (hg : Good β σ) :
@@ -323,5 +323,132 @@ theorem bindNext_succ (n : Nat) (ih : SimAll n) (β : Addr → List Stmt) (σ : 
   cases lhs with
   | mk raw loc =>
     cases raw <;> (unfold bindNext; try simp only [invalidBindDescr]) <;> ev_auto ih
+
+theorem wbRes_ne_timeout {α} (β : Addr → List Stmt) {r : Res α} (h : r ≠ .timeout) : wbRes β r ≠ .timeout := by
+  cases r <;> first | exact absurd rfl h | (intro h'; cases h')
+
+theorem evalStmts_cons_succ (n : Nat) (ih : SimAll n) (β : Addr → List Stmt) (σ : State) (sc : List Addr) (st st' : Stmt)
+    (r r' : List Stmt) (hg : Good β σ) (hs : RStmt st st') (hr : RStmts r r') :
+    Ev (evalStmts (n + 1) σ sc (st :: r)) (fun m => evalStmts m (wb β σ) sc (st' :: r')) := by
+  apply Ev.shift
+  unfold evalStmts
+  ev_auto ih
+
+/-- the same statement list on both sides -/
+theorem evalStmts_refl_succ (n : Nat) (ih : SimAll n) (β : Addr → List Stmt) (σ : State) (sc : List Addr) (ss : List Stmt)
+    (hg : Good β σ) : Ev (evalStmts (n + 1) σ sc ss) (fun m => evalStmts m (wb β σ) sc ss) := by
+  cases ss with
+  | nil => apply Ev.shift; unfold evalStmts; exact Ev.ok hg
+  | cons st r => exact evalStmts_cons_succ n ih β σ sc st st r r hg (RStmt.refl st) (RStmts.refl r)
+
+/-- the hole: the left run of `x` is matched by the right run of `x` (same code, states identical up to function
+    bodies), which — in that one state — `y` refines -/
+theorem evalStmts_succ (n : Nat) (ih : SimAll n) (β : Addr → List Stmt) (σ : State) (sc : List Addr) (ss ss' : List Stmt)
+    (hg : Good β σ) (hr : RStmts ss ss') : Ev (evalStmts (n + 1) σ sc ss) (fun m => evalStmts m (wb β σ) sc ss') := by
+  cases hr with
+  | nil => apply Ev.shift; unfold evalStmts; exact Ev.ok hg
+  | cons hs hrest => exact evalStmts_cons_succ n ih β σ sc _ _ _ _ hg hs hrest
+  | hole hxy =>
+    intro hne
+    obtain ⟨β', hg', m₀, hm⟩ := evalStmts_refl_succ n ih β σ sc ss hg hne
+    have h0 : evalStmts m₀ (wb β σ) sc ss = wbRes β' (evalStmts (n + 1) σ sc ss) := hm m₀ (Nat.le_refl _)
+    have hne' : evalStmts m₀ (wb β σ) sc ss ≠ .timeout := by rw [h0]; exact wbRes_ne_timeout β' hne
+    obtain ⟨m₁, hm₁⟩ := hxy m₀ (wb β σ) sc hne'
+    refine ⟨β', hg', m₁, fun m hmm => ?_⟩
+    show evalStmts m (wb β σ) sc ss' = _
+    rw [← h0, ← hm₁]
+    exact fuel_stable (mono_stmts _ _ _) rfl (by rw [hm₁]; exact hne') hmm
+
+theorem evalStmt_succ (n : Nat) (ih : SimAll n) (β : Addr → List Stmt) (σ : State) (sc : List Addr) (st st' : Stmt)
+    (hg : Good β σ) (hr : RStmt st st') : Ev (evalStmt (n + 1) σ sc st) (fun m => evalStmt m (wb β σ) sc st') := by
+  apply Ev.shift
+  cases hr with
+  | func name nl args c hss =>
+    rename_i ss ss'
+    unfold evalStmt
+    dsimp only []
+    apply Ev.bind (validateArgsRes_ev n args hg)
+    intro β0 _ σ0 hg0
+    show Ev ((bindNextName n (allocS σ0 (.func ⟨some name, args, c, ss, sc⟩)) sc [] name nl (SVal.plain (.func σ0.heap.size)) none
+          true).bind fun _ σ2 => Res.ok Escape.none σ2)
+      (fun m => (bindNextName m (allocS (wb β0 σ0) (.func (setBody ss' ⟨some name, args, c, ss, sc⟩))) sc [] name nl
+          (SVal.plain (.func (wb β0 σ0).heap.size)) none true).bind fun _ σ2 => Res.ok Escape.none σ2)
+    simp only [allocS_wb_func, size_wb]
+    apply Ev.bind (bindNextName_ev n sc [] name nl _ none true (good_allocS_func _ hg0 hss))
+    intro _ _ σ2 hg2
+    exact Ev.ok hg2
+  | forS lhs hi hss =>
+    have hi' := hi
+    cases hi'
+    unfold evalStmt
+    ev_auto ih
+  | _ =>
+    unfold evalStmt
+    ev_auto ih
+
+theorem evalCall_succ (n : Nat) (ih : SimAll n) (β : Addr → List Stmt) (σ : State) (sc : List Addr) (f f' : Expr)
+    (args args' : List ListItem) (loc : Loc) (hg : Good β σ) (hf : RExpr f f') (ha : RItems args args') :
+    Ev (evalCall (n + 1) σ sc f args loc) (fun m => evalCall m (wb β σ) sc f' args' loc) := by
+  apply Ev.shift
+  unfold evalCall
+  apply Ev.bind (ih.evalListItems β σ sc args args' [] hg ha)
+  intro β1 argVals σ1 hg1
+  apply Ev.bind (ih.evalExpr β1 σ1 sc f f' hg1 hf)
+  intro β2 fv σ2 hg2
+  dsimp only []
+  cases hv : fv.v with
+  | builtin name bid =>
+    simp only []
+    exact Ev.mapErr _ (callBuiltin_ev n _ _ _ hg2)
+  | func a =>
+    simp only [getFunc_wb]
+    cases hfr : σ2.getFunc a with
+    | none => exact Ev.of_eq (fun _ => rfl) trivial
+    | some fr =>
+      have hbody : RStmts fr.stmts (β2 a) := hg2 a fr hfr
+      simp only [Option.map, setBody]
+      split
+      · exact Ev.of_eq (fun _ => rfl) trivial
+      · split
+        · exact Ev.of_eq (fun _ => rfl) trivial
+        · cases hc : fr.collect with
+          | true =>
+            simp only [if_true, alloc_pair, size_wb, allocS_wb_list]
+            cases hs : fv.src <;> ev_auto ih
+          | false =>
+            simp only [Bool.false_eq_true, if_false]
+            cases hs : fv.src <;> ev_auto ih
+  | _ => exact Ev.of_eq (fun _ => rfl) trivial
+
+theorem simAll_succ (n : Nat) (ih : SimAll n) : SimAll (n + 1) where
+  evalExpr := evalExpr_succ n ih
+  evalOptIndex := evalOptIndex_succ n ih
+  evalListItems := evalListItems_succ n ih
+  evalProps := evalProps_succ n ih
+  evalCall := evalCall_succ n ih
+  evalToStr := evalToStr_succ n ih
+  evalToBool := evalToBool_succ n ih
+  evalToInt := evalToInt_succ n ih
+  evalToIndex := evalToIndex_succ n ih
+  interpolate := interpolate_succ n ih
+  evalBlock := evalBlock_succ n ih
+  declareAll := declareAll_succ n ih
+  evalStmts := evalStmts_succ n ih
+  evalStmt := evalStmt_succ n ih
+  evalIf := evalIf_succ n ih
+  evalWhile := evalWhile_succ n ih
+  evalFor := evalFor_succ n ih
+  bindNext := bindNext_succ n ih
+  bindProp := bindProp_succ n ih
+  bindRangeIndex := bindRangeIndex_succ n ih
+  bindList := bindList_succ n ih
+  bindObject := bindObject_succ n ih
+  bindObjectProp := bindObjectProp_succ n ih
+
+/-- the simulation, for every function of the evaluator and every fuel of the left run -/
+theorem simAll (n : Nat) : SimAll n := by
+  induction n with
+  | zero => exact simAll_zero
+  | succ n ih => exact simAll_succ n ih
 
 end Seed.C01
